@@ -226,14 +226,22 @@ def apply_observe(sess, op):
                 sess.fail("C16", "solve-succeeds", "solve() raised %s(%s) after a successful edit history" % (r[1], r[2]))
             if "C03" in E:
                 sess.fail("C03", "raises-only-documented", "solve() raised %s(%s)" % (r[1], r[2]))
-        if "C03" in E and op.get("modest"):
-            sess.fail("C03", "modest-system-solved", "solve() raised %s(%s) on a system with a modest-drop steady state" % (r[1], r[2]))
+        if "C03" in E:
+            sess.stats["c03_outcome:" + r[1]] += 1
+            defaults = not any(k in kw for k in ("vtol", "itol", "maxiter"))
+            if defaults:
+                from .refsolve import modest
+
+                if modest(m):
+                    sess.fail("C03", "modest-system-solved", "solve() raised %s(%s) on a system with a modest-drop steady state" % (r[1], r[2]))
     else:
         table = O.Table(r[1])
         if sess.gen is not None and table.phases:
             sess.gen.last_table = table.comp[table.phases[0]]
         out = checks._Out()
-        tol = checks.Tol(vt, it)
+        tol = checks.Tol(vt, it, atol=sess.tol_atol)
+        if "C03" in E:
+            sess.stats["c03_outcome:table"] += 1
         checks.check_table(m, table, ta, tol, E, out, sess.stats, phase_arg=kw.get("phase", ""))
         sess.stats["tables_checked"] += 1
         if out:
@@ -243,6 +251,14 @@ def apply_observe(sess, op):
             from .c03 import check_sweeps
 
             check_sweeps(sess, op, kw, table)
+    if "C03" in E and op.get("c03"):
+        outcome = "table" if table is not None else r[1]
+        mi = kw.get("maxiter", 10000)
+        bucket = (kw.get("vtol", 1e-6) <= 1e-6, kw.get("itol", 1e-6) <= 1e-6, 0 if mi < 5 else (1 if mi < 1000 else 2))
+        over = tuple(sorted(set(sess.model.kind(n) for n in sess.model.order)))
+        sess.stats["c03_%s_calls" % op["c03"]] += 1
+        if op["c03"] in ("stress", "micro"):
+            sess.nontrivial.add(("c03", op["c03"], outcome, bucket, over))
     # phases: single-phase slice equals all-phase rows; unknown phase rejected
     if "C06" in E and table is not None and m.sys_phases and "phase" not in kw:
         for ph in list(m.sys_phases.keys()):
